@@ -116,6 +116,199 @@ def expand_nested(ops):
     return out
 
 
+PYT_NAMES = ["foo", "foo.bar", "foobar", "foo_bar", "zed", "fo", "foo.a", "foo.bar.qux", ""]
+WS = ["", " ", "  ", "\t", " \t "]
+
+
+def gen_pytest(rng):
+    """(preload, value, imports, names, checker) -- value written with optional whitespace padding around every item"""
+    r = rng.random()
+    if r < .1:
+        return dict(preload=[], value=None, imports=[rng.choice(MODULES) for _ in range(3)])
+    names = rng.sample(PYT_NAMES, rng.choice([0, 1, 1, 2, 3]))
+    chk = "spy%s.check" % rng.choice("ABC")
+    pad = (lambda x: rng.choice(WS) + x + rng.choice(WS)) if rng.random() < .6 else (lambda x: x)
+    value = ",".join(pad(x) for x in names + [chk])
+    preload = [rng.choice(["foo_bar", "fo", "foo.a", "zed"])] if rng.random() < .3 else []
+    return dict(preload=preload, value=value, imports=[rng.choice(MODULES) for _ in range(rng.choice([2, 3, 4]))])
+
+
+PYT_CATALOGUE = [
+    dict(preload=[], value="foo,spyA.check", imports=["foo.bar.qux", "foobar", "foo_bar", "fo"]),
+    dict(preload=[], value=" foo.bar , zed ,spyB.check ", imports=["foo.bar.qux", "zed", "foo"]),
+    dict(preload=[], value="spyA.check", imports=["foo", "zed"]),                       # no names at all: only a checker
+    dict(preload=["foo_bar"], value="foo_bar,foo,spyA.check", imports=["foo"]),         # already imported -> RuntimeError
+    dict(preload=["foo.a"], value="foo,spyC.check", imports=["foo.bar"]),               # parent package already imported
+    dict(preload=["zed"], value="foo,spyC.check", imports=["foo.bar", "zed", "foo_bar"]),  # preloaded, not named: fine
+    dict(preload=[], value="foo,foo,spyC.check", imports=["foo.a"]),
+    dict(preload=[], value=",spyA.check", imports=["foo", "fo"]),                        # empty name matches nothing
+    dict(preload=[], value=None, imports=["foo", "zed"]),
+]
+
+
+def pytest_reference(c):
+    """the documented behaviour, independently of the Coq model"""
+    NEST = {"foo.bar.qux": ["foo.a"], "zed": ["foo_bar"]}
+    loaded = {}
+    def imp(m, names, chk):
+        parts = m.split(".")
+        for i in range(1, len(parts) + 1):
+            a = ".".join(parts[:i])
+            if a in loaded:
+                continue
+            hit = names is not None and any(a == n or a.split(".")[:len(n.split("."))] == n.split(".") for n in names if n)
+            loaded[a] = "hooked:%s" % chk if hit else "plain"
+            for d in NEST.get(a, []):
+                imp(d, names, chk)
+    for m in c["preload"]:
+        imp(m, None, None)
+    if c["value"] is None:
+        names, chk = None, None
+    else:
+        items = [x.strip() for x in c["value"].split(",")]
+        names, chk = items[:-1], items[-1]
+        if any(n in loaded for n in names):
+            return "already-imported"
+    for m in c["imports"]:
+        imp(m, names, chk)
+    return loaded
+
+
+def gen_ipython(rng):
+    ops, k = [], 0
+    for _ in range(rng.choice([3, 4, 5, 6, 7])):
+        r = rng.random()
+        if r < .35:
+            ops.append(["magic", rng.choice("ABC")])
+        elif r < .5:
+            ops.append(["other", len(ops)])
+        else:
+            ops.append(["cell", "fn%d" % k]); k += 1
+    ops.append(["cell", "fn%d" % k])
+    return ops
+
+
+IPY_CATALOGUE = [
+    [["cell", "f0"], ["magic", "A"], ["cell", "f1"], ["magic", "B"], ["cell", "f2"], ["magic", "B"], ["cell", "f3"]],
+    [["other", 1], ["magic", "A"], ["other", 2], ["magic", "C"], ["cell", "g0"], ["other", 3], ["cell", "g1"]],
+    [["magic", "A"], ["magic", "A"], ["magic", "A"], ["cell", "h0"]],
+]
+
+
+def ipy_reference(ops):
+    cur, cells, others = None, [], []
+    for op in ops:
+        if op[0] == "magic":
+            cur = "spy%s.check" % op[1]
+        elif op[0] == "other":
+            others.append("O%d" % op[1])
+        else:
+            cells.append([op[1], cur or ""])
+    return cells, others, cur
+
+
+def ipy_coq(ops):
+    out = []
+    for op in ops:
+        out.append("(IMagic %s)" % vf.coqstr("spy%s.check" % op[1]) if op[0] == "magic" else "(IAddOther %d)" % op[1] if op[0] == "other" else "(ICell %s)" % vf.coqstr(op[1]))
+    return "[" + "; ".join(out) + "]"
+
+
+def front_ends(R, root, env):
+    """the pytest option and the IPython magic, each against an independent reference and the Coq model"""
+    from concurrent.futures import ThreadPoolExecutor
+    npt, nip = (90, 90) if R.thorough else (14, 12)
+    pyt = [dict(c) for c in PYT_CATALOGUE] + [gen_pytest(R.rng) for _ in range(npt)]
+    ipy = list(IPY_CATALOGUE) + [gen_ipython(R.rng) for _ in range(nip)]
+    def run(mode, payload):
+        p = subprocess.run([vf.PY, os.path.join(vf.VERIF, "harness", "impl_hookfront.py"), mode, root, json.dumps(payload)], capture_output=True, text=True, env=env, timeout=600, cwd=root)
+        lines = [l for l in p.stdout.splitlines() if l.startswith("{")]
+        if not lines:
+            return {"error": (p.stderr or p.stdout)[-600:]}
+        return json.loads(lines[-1])
+    with ThreadPoolExecutor(12) as ex:
+        pres = list(ex.map(lambda c: run("pytest", c), pyt))
+        ires = list(ex.map(lambda o: run("ipython", {"ops": o}), ipy))
+    pm = vf.coq_eval_strings(["model.HookFront"], "fun c => let '(pre, v, imps) := c in match v with Some v => show_pytest pre v imps | None => show_pytest pre EmptyString imps end",
+                             ["(%s, %s, %s)" % (vf.coqlist(expand_mods(c["preload"]), vf.coqstr), vf.coqopt(c["value"], vf.coqstr), vf.coqlist(expand_mods(c["imports"]), vf.coqstr)) for c in pyt], shard=400)
+    im = vf.coq_eval_strings(["model.HookFront"], "fun ops => (show_cells (irun ops is0) ++ \"|\" ++ show_xfs (irun ops is0))%string", [ipy_coq(o) for o in ipy], shard=400)
+    for c, r, m in zip(pyt, pres, pm):
+        R.count("pytest:" + ("already" if "already" in r else "error" if "error" in r else "ran"))
+        if "error" in r:
+            R.violation("correspondence", "pytest run failed for %s: %s" % (json.dumps(c), r["error"][-300:]), {"case": c}, key={"kind": "pytest-run-error"}, no_input=True); continue
+        want = pytest_reference(c)
+        got = "already-imported" if "already" in r else {k: v.replace("hooked:A", "hooked:spyA.check").replace("hooked:B", "hooked:spyB.check").replace("hooked:C", "hooked:spyC.check") for k, v in r["loaded"].items()}
+        if got != want:
+            R.violation("property", "pytest --jaxtyping-packages=%r (preloaded %s, imports %s): modules are %s, the documented rule says %s" % (c["value"], c["preload"], c["imports"], got, want),
+                        {"front_end": "pytest", "case": c, "got": got, "expected": want}, key={"kind": "pytest-scope"})
+        mm = "already-imported" if m == "already-imported" else (dict(x.split("=") for x in m.split(",")) if m else {})
+        if mm != got:
+            R.violation("correspondence", "model and implementation disagree on the pytest option %s: impl %s, model %s" % (json.dumps(c), got, mm), {"case": c, "impl": got, "model": mm}, key={"kind": "pytest-model"}, no_input=(got == want))
+    for ops, r, m in zip(ipy, ires, im):
+        if "error" in r:
+            R.violation("correspondence", "IPython history failed %s: %s" % (json.dumps(ops), r["error"][-300:]), {"ops": ops}, key={"kind": "ipython-run-error"}, no_input=True); continue
+        cells, others, cur = ipy_reference(ops)
+        gx = [x for x in r["xfs"] if not x.startswith("X:")]
+        wantx = others + (["J:" + cur] if cur else [])
+        R.count("ipython:cells", len(cells))
+        if r["cells"] != cells:
+            R.violation("property", "IPython magic history %s: cells were instrumented as %s, the latest magic before each cell calls for %s" % (json.dumps(ops), r["cells"], cells),
+                        {"front_end": "ipython", "ops": ops, "got": r["cells"], "expected": cells}, key={"kind": "ipython-cells"})
+        if sorted(gx) != sorted(wantx) or [x for x in gx if x.startswith("O")] != others:
+            R.violation("property", "IPython magic history %s: shell.ast_transformers is %s, expected the other transformers in order plus exactly one jaxtyping transformer: %s" % (json.dumps(ops), gx, wantx),
+                        {"front_end": "ipython", "ops": ops, "got": gx, "expected": wantx}, key={"kind": "ipython-transformers"})
+        mc, mx = m.split("|")
+        mcells = [x.split("=") for x in mc.split(",")] if mc else []
+        if mcells != r["cells"] or sorted(mx.split(",") if mx else []) != sorted(gx):
+            R.violation("correspondence", "model and implementation disagree on the IPython history %s: impl %s / %s, model %s / %s" % (json.dumps(ops), r["cells"], gx, mcells, mx),
+                        {"ops": ops, "impl": r, "model": m}, key={"kind": "ipython-model"}, no_input=(r["cells"] == cells))
+    return len(pyt), len(ipy)
+
+
+def expand_mods(mods):
+    out = []
+    for m in mods:
+        out.append(m)
+        out += {"foo.bar.qux": ["foo.a"], "zed": ["foo_bar"]}.get(m, [])
+    return out
+
+
+def bytecode_pairs(R, env):
+    """two runs over one forest WITH bytecode caching: what the second run loads must not depend on the first"""
+    from concurrent.futures import ThreadPoolExecutor
+    n = 40 if R.thorough else 8
+    pairs = [([["install", ["foo.bar"], "A", 0, True], ["import", "foo.bar.qux"]], [["install", ["foo.a"], "A", 0, True], ["import", "foo.a"], ["import", "foo.bar.qux"]]),
+             ([["install", ["zed"], "B", 0, True], ["import", "zed"]], [["install", ["foo_bar"], "B", 0, True], ["import", "foo_bar"], ["import", "zed"]]),
+             ([["install", ["foo_bar"], "B", 0, True], ["import", "foo_bar"]], [["install", ["zed"], "B", 0, True], ["import", "zed"]])]
+    for _ in range(n):
+        pairs.append((gen_history(R.rng), gen_history(R.rng)))
+    def runpair(pr):
+        root = tempfile.mkdtemp(prefix="vfc11b")
+        try:
+            make_forest(root)
+            outs = []
+            for ops in pr:
+                p = subprocess.run([vf.PY, os.path.join(vf.VERIF, "harness", "impl_hookscope.py"), root, json.dumps(ops), "bytecode"], capture_output=True, text=True, env=env, timeout=300, cwd=root)
+                lines = [l for l in p.stdout.splitlines() if l.startswith("{")]
+                outs.append(json.loads(lines[-1]) if lines else {"error": (p.stderr or p.stdout)[-400:]})
+            return outs
+        finally:
+            shutil.rmtree(root, ignore_errors=True)
+    with ThreadPoolExecutor(8) as ex:
+        res = list(ex.map(runpair, pairs))
+    for pr, outs in zip(pairs, res):
+        for k, (ops, r) in enumerate(zip(pr, outs)):
+            if "error" in r or "loaded" not in r:
+                R.violation("correspondence", "bytecode pair run failed: %s" % str(r)[:300], {"pair": pr}, key={"kind": "pair-run-error"}, no_input=True); continue
+            want = reference(ops)
+            for mod in sorted(set(want) | set(r["loaded"])):
+                if r["loaded"].get(mod) != want.get(mod):
+                    R.violation("property", "run %d of a pair of runs sharing one __pycache__ (first run %s; second run %s): module %s is %s, the documented rule says %s" % (
+                        k + 1, json.dumps(pr[0]), json.dumps(pr[1]), mod, r["loaded"].get(mod), want.get(mod)),
+                        {"pair": pr, "run": k + 1, "module": mod, "got": r["loaded"].get(mod), "expected": want.get(mod)}, key={"kind": "scope-after-earlier-run", "module": mod})
+    return len(pairs)
+
+
 def main():
     R = vf.Report(PID)
     proved = R.proof_step()
@@ -134,6 +327,8 @@ def main():
         from concurrent.futures import ThreadPoolExecutor
         with ThreadPoolExecutor(12) as ex:
             results = list(ex.map(run, hists))
+        n_pyt, n_ipy = front_ends(R, root, env)
+        n_pairs = bytecode_pairs(R, env)
     finally:
         shutil.rmtree(root, ignore_errors=True)
     model = vf.coq_eval_strings(["model.HookScope"], "fun ops => show_loaded (hrun ops hs0)", [ops_coq(expand_nested(h)) for h in hists], shard=400)
@@ -158,10 +353,13 @@ def main():
     if not proved:
         R.violation("proof", "proof obligations of props/C11.v no longer check: " + str(R.broken_proof)[-800:],
                     {"theorem_file": "coq/props/C11.v", "log": R.broken_proof}, no_input=not any(v["kind"] == "property" for v in R.violations))
-    R.coverage.update(evaluations=len(hists), distinct_nontrivial=len(nontriv), samples=samples,
+    R.coverage.update(evaluations=len(hists) + n_pyt + n_ipy + n_pairs, pytest_option_runs=n_pyt, ipython_histories=n_ipy, bytecode_pairs=n_pairs, distinct_nontrivial=len(nontriv), samples=samples,
                       rule="%d catalogue + %d PRNG histories of install(names, checker) / uninstall or with-exit (also of already removed hooks) / import over a generated forest (foo, foo.a, foo.bar, foo.bar.qux importing foo.a, foobar, foobar.m, foo_bar, zed importing foo_bar, fo), "
-                           "each in a fresh interpreter; 3 spy typecheckers record which module's functions they were applied to, `None` checker detected through __wrapped__. Expected tags from an independent reference of the documented rule; model (Coq hrun) compared on the full sys.modules picture. non-trivial = history with >= 2 installs" % (len(CATALOGUE), n))
-    R.assumptions += ["importlib itself is modelled (first matching finder in sys.meta_path; parents imported first)", "the pytest option and the IPython magic call install_import_hook with the given names (not exercised in this tier)"]
+                           "each in a fresh interpreter; 3 spy typecheckers record which module's functions they were applied to, `None` checker detected through __wrapped__. Expected tags from an independent reference of the documented rule; model (Coq hrun) compared on the full sys.modules picture. non-trivial = history with >= 2 installs. "
+                           "Front ends: %d real pytest runs with --jaxtyping-packages (whitespace-padded items, no names, empty names, `-p` preloaded modules incl. the already-imported RuntimeError) and %d histories of "
+                           "%%jaxtyping.typechecker magics / other AST transformers / cells in a real IPython InteractiveShell, each against an independent reference and model/HookFront.v. "
+                           "%d pairs of runs over one forest with bytecode caching ON (second run must load what the rule says whatever the first run cached)" % (len(CATALOGUE), n, n_pyt, n_ipy, n_pairs))
+    R.assumptions += ["importlib itself is modelled (first matching finder in sys.meta_path; parents imported first)", "pytest's plugin loading order (-p modules are imported before pytest_configure) and IPython's application of shell.ast_transformers in list order are pytest's / IPython's"]
     sys.exit(R.finish())
 
 
